@@ -7,6 +7,42 @@ Import ListNotations.
 Open Scope N_scope.
 Set Default Timeout 120.
 
+(* ---- every field of a table that passes `route_ok` is reachable: the key `get_pairs` builds for it classifies back to it ---- *)
+Section ROUTE.
+Variable maxvec : N.
+Hypothesis Hmax : maxvec + 1 < 2 ^ 64.
+Hypothesis Hmin : 4 <= maxvec.
+Variable T : table.
+Hypothesis RT : route_ok T = true.
+Lemma in_combine_seq' {A} (l : list A) : forall j d s, nth_error l j = Some d -> In ((s + j)%nat, d) (List.combine (seq s (length l)) l).
+Proof. induction l as [|x l IH]; intros j d s H; [destruct j; discriminate|]. destruct j as [|j]; cbn in *.
+  - inversion H; subst. left. f_equal. lia.
+  - right. replace (s + S j)%nat with (S s + j)%nat by lia. now apply IH. Qed.
+Lemma route_row i r : nth_error T i = Some r ->
+  match r_addr r with
+  | APlain t => find_idx (is_plain t) T = Some i /\ t <> xfc
+  | APset s => find_idx (is_pset s) T = Some i
+  | AProp => find_idx is_prop T = Some i
+  | AUnk => find_idx is_unk T = Some i end.
+Proof. intros H. unfold route_ok in RT. rewrite forallb_forall in RT. specialize (RT _ (in_combine_seq' T i r 0%nat H)). cbn [fst snd] in RT.
+  destruct (r_addr r) as [t|s| |].
+  - apply andb_true_iff in RT as [A B]. destruct (find_idx (is_plain t) T) as [j|]; [|discriminate]. apply Nat.eqb_eq in A. subst j. split; [reflexivity|].
+    intros ->. rewrite byte_eqb_refl in B. discriminate.
+  - destruct (find_idx (is_pset s) T) as [j|]; [|discriminate]. apply Nat.eqb_eq in RT. now subst.
+  - destruct (find_idx is_prop T) as [j|]; [|discriminate]. apply Nat.eqb_eq in RT. now subst.
+  - destruct (find_idx is_unk T) as [j|]; [|discriminate]. apply Nat.eqb_eq in RT. now subst. Qed.
+Lemma no_plain_fc : find_idx (is_plain xfc) T = None.
+Proof. destruct (find_idx (is_plain xfc) T) as [j|] eqn:F; [|reflexivity]. exfalso.
+  destruct (find_idx_some _ _ _ F) as (r & R & P). pose proof (route_row _ _ R) as X. unfold is_plain in P.
+  destruct (r_addr r) as [t| | |]; try discriminate. apply byte_eqb_true in P. subst t. now destruct X. Qed.
+Theorem field_reachable i r k v : nth_error T i = Some r -> (exists t, r_addr r = APlain t) \/ (exists s, r_addr r = APset s) ->
+  classify maxvec T (mk_key maxvec T (i, k, v)) = POk (i, k).
+Proof. intros R A. pose proof (route_row _ _ R) as X. unfold mk_key. cbn [slot ekey fst snd]. rewrite R. destruct A as [[t A]|[s A]]; rewrite A in *.
+  - destruct X as [X _]. unfold classify. now rewrite X.
+  - unfold classify. rewrite no_plain_fc, byte_eqb_refl.
+    rewrite (prop_dec_enc maxvec Hmax pset_prefix s k) by (unfold fitsb, pset_prefix; cbn [length]; lia). now rewrite bytes_eqb_refl, X. Qed.
+End ROUTE.
+
 Section TABLES.
 Variable maxvec : N.
 Hypothesis Hmax : maxvec + 1 < 2 ^ 64.
